@@ -14,7 +14,7 @@ def scenarios(ctx, thorough):
     with_rot = [h for h in hists if any(x["a"] == "Rotate" for x in h)]
     for h in with_rot[: (400 if thorough else 45)]:
         sid += 1
-        scs.append(S.mk(sid, "tlc-salt", "salt", S.project(h, rng, ["object", "bool", "vecint"]), gates=["send.genid"], fresh=(sid % 3 == 0)))
+        scs.append(S.mk(sid, "tlc-salt", "salt", S.project(h, rng, ["object", "bool", "vecint", "vecobj"]), gates=["send.genid"], fresh=(sid % 3 == 0)))
     P = lambda t: {"a": "Probe", "tag": t}
     named = {
         "rotate-before-first-call": [{"a": "Rotate"}, S.call("c1", 11), {"a": "Drain"}, P(90)],
@@ -24,6 +24,9 @@ def scenarios(ctx, thorough):
         "three-rotations-many-pending": [S.call("c1", 11), S.call("c2", 12), {"a": "Sleep", "n": 30}, {"a": "Rotate"}, S.call("c3", 13), {"a": "Sleep", "n": 40},
                                          {"a": "Rotate"}, S.call("c4", 14), {"a": "Sleep", "n": 40}, {"a": "Rotate"}, S.call("c5", 15), {"a": "Drain"}, P(90)],
         "rotation-while-nothing-pending": [P(90), {"a": "Rotate"}, {"a": "Push", "what": "api_object"}, {"a": "Settle"}, P(91)],
+        # a rejected request keeps what it registered with the decoder when it is sent again; several requests rejected by one rotation
+        "vector-requests-rejected": [{"a": "Rotate"}, S.call("c1", 11, "vecint"), S.call("c2", 12, "vecobj"), S.call("c3", 13, "bool"),
+                                     {"a": "Answer", "tags": [12, 11, 13], "container": True, "gzip": [True, False, False], "n": 800}, {"a": "Drain"}, P(90)],
         "new-session-announces-salt": [P(90), {"a": "Push", "what": "new_session_newsalt"}, {"a": "Settle"}, P(91)],
     }
     # the rejection is processed while the sender is still inside the send section
